@@ -33,6 +33,7 @@ import (
 	"errors"
 	"fmt"
 	"log/slog"
+	"os"
 	"runtime"
 	"sort"
 	"strings"
@@ -341,9 +342,10 @@ func TestC12_Schedules(t *testing.T) {
 					rt.Fatalf("harness: event of worker %d while waiting for worker %d (%s)", e.id, id, what)
 				}
 				return e
-			case <-time.After(60 * time.Second):
-				fmt.Printf("VERIF-INFRA: C12 worker %d did not reach the cipher gate or finish within 60s (%s); a receive path that blocks while another call is inside the cipher cannot be scheduled by this harness\n", id, what)
-				rt.Fatalf("watchdog")
+			case <-time.After(30 * time.Second):
+				fmt.Printf("VERIF-INFRA: C12 worker %d did not reach the cipher gate or finish within 30s (%s); a receive path that blocks while another call is inside the cipher cannot be scheduled by this harness\n", id, what)
+				vk.Flush()
+				os.Exit(3)
 				panic("unreachable")
 			}
 		}
